@@ -23,6 +23,12 @@ def wfPorts : PortList → Bool
   | (k, p) :: rest => !hasKey k rest && wfPort p && wfPorts rest
 end
 
+/-- the value found at a path of keys -/
+def getPath : Option V → List String → Option V
+  | v, [] => v
+  | some (.dict _ items), k :: rest => getPath (lookup k items) rest
+  | _, _ :: _ => none
+
 /-! ## acceptance -/
 
 /-- the mapping a namespace is checked against: nothing supplied and any falsy value count as the empty mapping;
